@@ -80,9 +80,21 @@ func (r *ResponseFilterWriter) WriteHeader(code int) {
 		return
 	}
 
+	// An informational header (1xx, except 101) is not the response
+	// header: pass it on, the decision is taken at the final one.
+	if code >= 100 && code <= 199 && code != http.StatusSwitchingProtocols {
+		r.ResponseWriter.WriteHeader(code)
+		return
+	}
+
 	// Determine if compression should be used or not.
-	r.shouldCompress = true
+	// A 204 response has no content: there is nothing to encode, and
+	// it must not be labelled with a Content-Encoding.
+	r.shouldCompress = code != http.StatusNoContent
 	for _, filter := range r.filters {
+		if !r.shouldCompress {
+			break
+		}
 		if !filter.ShouldCompress(r) {
 			r.shouldCompress = false
 			break
